@@ -253,7 +253,7 @@ def domain_file_text(i, flags):
     """agent i's domain file: base vocabulary + the optional pieces its flags switch on + its own action"""
     types = list(G.TYPES) + (OPT_TYPES if flags["t4"] else [])
     preds = [p for p, on in zip(OPT_PREDICATES, (flags["e1"], flags["e2"])) if on]
-    acts = [own_action(i)] + ([SHARED_ACTION] if flags["common"] else [])
+    acts = ([own_action(i)] if flags["own"] else []) + ([SHARED_ACTION] if flags["common"] else [])
     tree = G.domain_tree(acts, const=True, types=types, extra_predicates=preds)
     if flags["w"]:
         for sec in tree:
@@ -278,7 +278,7 @@ def run_domains(task):
     res = {"task": task, "outcome": "held", "paths": 0, "obligations": 0, "cex": None, "reached": 0}
     stats = Stats()
     k = task["k"]
-    names = ("t4", "e1", "e2", "w", "common")
+    names = ("t4", "e1", "e2", "w", "common", "own")
     # within the path budget: with 3-4 files only some of the optional declarations are symbolic per file, the others are
     # fixed (declared by the files with an even index)
     sym_names = task.get("sym_names") or names
@@ -339,7 +339,7 @@ def domain_problems(task, flags, combined, reparsed):
     any_ = {n: any(f[n] for f in flags) for n in flags[0]}
     # reference: ONE domain text with everything that some file declares, parsed by the library's own parser
     ref_flags = dict(any_)
-    acts = [own_action(i) for i in range(k)] + ([SHARED_ACTION] if any_["common"] else [])
+    acts = [own_action(i) for i in range(k) if flags[i]["own"]] + ([SHARED_ACTION] if any_["common"] else [])
     types = list(G.TYPES) + (OPT_TYPES if any_["t4"] else [])
     preds = [p for p, on in zip(OPT_PREDICATES, (any_["e1"], any_["e2"])) if on]
     tree = G.domain_tree(acts, const=True, types=types, extra_predicates=preds)
@@ -377,7 +377,7 @@ def _cex_d(ctx, res, task, fv, problems):
         return
     m = ctx.solver.model()
     k = task["k"]
-    names = ("t4", "e1", "e2", "w", "common")
+    names = ("t4", "e1", "e2", "w", "common", "own")
     flags = [{n: bool(z3.is_true(m.eval(fv[(i, n)], model_completion=True))) for n in names} for i in range(k)]
     try:
         combined, reparsed = pipeline_domains(task, flags)
@@ -410,13 +410,16 @@ def tasks_for(tier, seed):
                 fluent_files = {f: sorted(rng.sample(range(k), rng.randint(1, k))) for f in fl}
                 tasks.append({"kind": "problems", "k": k, "order": order, "facts": facts, "fluents": fl, "fluent_files": fluent_files,
                               "goals": gs[:k] if k <= len(gs) else gs, "disjoint_objects": bool((gi + oi) % 2) and k >= 2,
+                              # without the private fact a file may list no boolean fact at all (only fluents, or nothing)
+                              "private_facts": bool((gi + oi + k) % 2),
                               "max_paths": 1500 if tier == "quick" else 6000})
         for oi, order in enumerate(orders[:2] if tier == "quick" else orders):
             for dummy in (False, True):
                 if k >= 3 and tier == "quick" and dummy and oi:
                     continue
-                names = ("t4", "e1", "e2", "w", "common")
-                sym = names if k <= 2 else tuple(rng.sample(names, 3 if k == 3 else 2))
+                names = ("t4", "e1", "e2", "w", "common", "own")
+                budget = {1: 6, 2: 4 if tier == "quick" else 6, 3: 3, 4: 2}[k]
+                sym = names if budget >= len(names) else tuple(["own"] + rng.sample([n for n in names if n != "own"], budget - 1))
                 tasks.append({"kind": "domains", "k": k, "order": order, "dummy": dummy, "sym_names": list(sym),
                               "max_paths": 1100 if tier == "quick" else 40000})
     return tasks
@@ -485,7 +488,7 @@ def main(tier):
                    "file (every overlap pattern), 2-3 fluents placed in enumerated file subsets with one symbolic value each, shared and "
                    "half-disjoint object tables with one private object per file, 3 goal splits with duplicates across files",
                    "domains": "base vocabulary in every file; per file symbolic bits for an extra type, two extra predicates, an extra "
-                              "function and a shared action; one own action per file; dummy switch",
+                              "function, a shared action and the file's own action (a file may declare no action at all); dummy switch",
                    "orders": "identity + reversed (quick) / up to 6 permutations (thorough) through a Path whose glob is permuted",
                    "outside": "files that disagree about a fluent's value or a shared action's body (unspecified by the property), "
                               "'leaves other domains unchanged' (C07), directory layouts other than the documented name patterns, "
